@@ -88,6 +88,7 @@ func genGraph(rng *rand.Rand, o graphOpts) LifeSpec {
 		}
 		spec.Procs = append(spec.Procs, p)
 	}
+	probeless := map[int]bool{} // process_healthy dependencies left without a probe
 	// edges j -> i for j < i
 	for i := 1; i < n; i++ {
 		for j := 0; j < i; j++ {
@@ -98,14 +99,27 @@ func genGraph(rng *rand.Rand, o graphOpts) LifeSpec {
 			d := &spec.Procs[j]
 			switch c {
 			case types.ProcessConditionHealthy:
-				if !o.Probes || d.ReadyLine != "" {
+				if d.ReadyLine != "" {
 					c = types.ProcessConditionCompleted
+				} else if !o.Probes {
+					// without probes (no real-time cost) one in three of these
+					// edges stays process_healthy on a probe-less dependency
+					if d.Probe || rng.Intn(3) != 0 {
+						c = types.ProcessConditionCompleted
+					} else {
+						probeless[j] = true
+					}
+				} else if !d.Probe && rng.Intn(4) == 0 {
+					probeless[j] = true
+					// process_healthy on a dependency without a readiness probe:
+					// it can never be reported healthy, its dependents are
+					// released (skipped) when it ends
 				} else {
 					d.Probe = true
 					d.ProbeFail = 3
 				}
 			case types.ProcessConditionLogReady:
-				if d.Probe {
+				if d.Probe || probeless[j] {
 					c = types.ProcessConditionCompletedSuccessfully
 				} else if d.ReadyLine == "" {
 					d.ReadyLine = fmt.Sprintf("rdy-%d-ok", j)
@@ -241,6 +255,16 @@ func init() {
 				spec := genGraph(rng, graphOpts{MaxN: 7, Probes: i%48 == 0, ExitOn: true, FailHeavy: i%2 == 0, Restarts: i%3 == 0})
 				cs = append(cs, fw.MkCase("C04", "graph-exit", s, spec))
 			}
+			// an exit_on_* trigger fires while Run() is still inside its start-up
+			// loop (held at the yield point), the processes launched so far are
+			// slow to die
+			for i := 0; i < tierN(tier, 96, 1600); i++ {
+				s := fw.SubSeed(seed, 9000000+i)
+				// index: point Run.loop (0 mod 14), trigger 1..3, shape, ordered
+				idx := 14*(1+i%3) + 14*4*((i/3)%4) + 14*16*((i/12)%2)
+				spec, label := genShutdownCase(fw.Rand(s), idx)
+				cs = append(cs, fw.MkCase("C04", "exit-trigger-during-startup:"+label, s, spec))
+			}
 			return cs
 		},
 		Run: func(c fw.Case) fw.Result {
@@ -270,7 +294,17 @@ func init() {
 			for i := 0; i < n; i++ {
 				s := fw.SubSeed(seed, i)
 				rng := fw.Rand(s)
-				spec := genGraph(rng, graphOpts{MaxN: 7, Probes: i%40 == 0, FailHeavy: true, ExitOn: i%4 == 0, Density: 0.35 + rng.Float64()*0.4})
+				spec := genGraph(rng, graphOpts{MaxN: 7, Probes: i%40 == 0, FailHeavy: true, ExitOn: i%4 == 0, Restarts: i%7 == 3, Density: 0.35 + rng.Float64()*0.4})
+				if i%7 == 3 {
+					// a failing, restartable dependency is stopped by the user inside its back-off
+					for k := range spec.Procs {
+						if p := &spec.Procs[k]; p.Restart == "on_failure" || p.Restart == "always" {
+							p.Backoff = 2
+							spec.Ops = append(spec.Ops, Op{When: "state:" + p.Name + ":Restarting", Op: "stop", Proc: p.Name})
+							break
+						}
+					}
+				}
 				if i%5 == 0 {
 					// user stops a dependency while it runs / while it is pending
 					t := spec.Procs[rng.Intn(len(spec.Procs))].Name
